@@ -2,7 +2,9 @@ package tls
 
 import (
 	"crypto"
+	"crypto/x509"
 	"hash"
+	"time"
 )
 
 func zzStubHashNew(h crypto.Hash) hash.Hash { return &zzUFHash{} }
@@ -202,3 +204,90 @@ func specShareGroup(spec ClientHelloSpec, i int) CurveID {
 //verif:assume transcript hash and the Finished MAC are uninterpreted functions; the peer never answers
 //verif:doc Same scenario as C20 psk_binder_covers_final_hello, claimed here for its C01 half: with a real pre_shared_key (locked session, binders set) a documented edit made between BuildHandshakeState and Handshake is visible in the first record, which equals Hello.Raw.
 func zzC01EditsVisibleWithInjectedPsk() { zzPskEditAfterBuild() }
+
+//verif:harness C01 edits_visible_with_cached_tls12_ticket unwind=4000 instrs=600000000 paths=40000 wall=900
+//verif:stub crypto/sha256.Sum256 zzStubSum256
+//verif:stub (*math/rand.Rand).Shuffle zzStubShuffleIdentity
+//verif:stub (*crypto/x509.Certificate).VerifyHostname zzStubVerifyHostname
+//verif:stub (time.Time).Sub zzStubTimeSub
+//verif:expect end
+//verif:assume x509 host-name matching succeeds (stub); the cached TLS 1.2 session is valid; the peer never answers
+//verif:doc For every predefined parrot with a session_ticket extension and no pre_shared_key: a ClientSessionCache holding a valid TLS 1.2 session (so the hello offers its ticket - the situation in which specs with a GetSessionID hook derive the legacy session id from the ticket), an explicit BuildHandshakeState, then Hello.SessionId replaced by 32 symbolic bytes or SetClientRandom, then Handshake: the first record equals Hello.Raw, carries the cached ticket and shows the edit.
+func zzC01EditsVisibleWithCachedTLS12Ticket() {
+	p := zzChooseParrot()
+	spec, _ := zzRefSpec(p.id)
+	hasTicket, hasPSK := false, false
+	var suite uint16
+	for _, e := range spec.Extensions {
+		switch e.(type) {
+		case *SessionTicketExtension:
+			hasTicket = true
+		case PreSharedKeyExtension:
+			hasPSK = true
+		}
+	}
+	for _, s := range spec.CipherSuites {
+		if cs := cipherSuiteByID(s); cs != nil && !zzIsTLS13Suite(s) {
+			suite = s
+			break
+		}
+	}
+	if !hasTicket || hasPSK || suite == 0 {
+		verifReach("end")
+		return
+	}
+	zzCacheKeys, zzCachePuts, zzHostnameChecks = nil, nil, nil
+	zzHostnameOK = true
+	cfg := zzConfig("example.com")
+	cfg.ClientSessionCache = zzScriptedCache{}
+	now := zzFixedTime()
+	cert := &x509.Certificate{NotAfter: now.Add(time.Hour)}
+	ticket := []byte{0xde, 0xad, 0xbe, 0xef}
+	zzCachedSession = &ClientSessionState{session: &SessionState{version: VersionTLS12, cipherSuite: suite, extMasterSecret: true, createdAt: uint64(now.Unix()), secret: []byte{1}, ticket: ticket,
+		peerCertificates: []*x509.Certificate{cert}, verifiedChains: [][]*x509.Certificate{{cert}}}}
+	conn := &zzRecConn{}
+	uc := UClient(conn, cfg, p.id)
+	if uc.BuildHandshakeState() != nil {
+		verifReach("end")
+		return
+	}
+	var newSID, newRandom []byte
+	if verifBool("edit-session-id") {
+		newSID = verifBytes("new-session-id", 32)
+		uc.HandshakeState.Hello.SessionId = newSID
+	} else {
+		newRandom = verifBytes("new-random", 32)
+		verifAssert(uc.SetClientRandom(newRandom) == nil, "set-client-random")
+	}
+	herr := uc.Handshake()
+	verifAssertClass(herr != nil, "handshake-stops-at-eof", p.name)
+	wire, ok := zzRecordPayload(conn, 0)
+	verifAssertClass(ok, "client-hello-written", p.name)
+	if !ok {
+		return
+	}
+	raw := uc.HandshakeState.Hello.Raw
+	verifAssertClass(len(raw) == len(wire) && zzBytesEq(raw, wire), "wire-equals-hello-raw", p.name)
+	h, why := zzRefParseClientHello(wire)
+	verifAssertClass(why == "", "hello-parses-strictly", p.name+":"+why)
+	if why != "" {
+		return
+	}
+	if tb, has := h.ext(35); has {
+		verifAssertClass(len(tb) == 0 || zzBytesEq(tb, ticket), "ticket-is-the-cached-one", p.name)
+	}
+	if newSID != nil {
+		verifAssertClass(zzBytesEq(h.sessionID, newSID), "edited-session-id-on-the-wire", p.name)
+	}
+	if newRandom != nil {
+		verifAssertClass(zzBytesEq(h.random, newRandom), "edited-random-on-the-wire", p.name)
+	}
+	verifReach("end")
+}
+
+// SHA-256 as an uninterpreted function (specs with a GetSessionID hook hash the ticket).
+func zzStubSum256(data []byte) [32]byte {
+	var out [32]byte
+	copy(out[:], verifUFBytes("sha256", 32, data))
+	return out
+}
